@@ -450,7 +450,7 @@ def run(ctx):
     # bufsize set); its findings about the child's command line are findings here
     from . import common as _cm19, c13 as _c13
     _cm19.lift(ctx, 'C19.3', 'program-started-with-the-forwarded-words', _c13, 'C13', ('C13.3',), 'the words after -r must reach the program unmodified',
-               key_filter=lambda k: k.startswith('child:') or 'child:' in k, floor=1)
+               key_filter=lambda k: k.startswith('child:') or 'child:' in k, floor=1, soft=True)
 
     return ('path enumeration of _split_command (return shapes) and _select_mode, identity chains of the two halves into argparse / Arguments / subprocess / GDB, '
             'quoting-function check of the GDB re-quoting. Decided: %s. Undecided: %s' % ('; '.join(ctx.decided), '; '.join(ctx.undecided)))
